@@ -508,8 +508,8 @@ func Check() *core.Check {
 				depth = 6
 			}
 			return []*core.Family{{
-				Name: "history-bfs",
-				Desc: fmt.Sprintf("BFS depth<=%d over %d operations from %d initial states (empty set; documents of 0..12 policies)", depth, len(ops), nInits),
+				Name:   "history-bfs",
+				Desc:   fmt.Sprintf("BFS depth<=%d over %d operations from %d initial states (empty set; documents of 0..12 policies)", depth, len(ops), nInits),
 				N:      nInits,
 				Serial: true,
 				Run: func(t *core.T, i int64) {
